@@ -226,12 +226,18 @@ def families(tier):
         if shape == 'fwd':
             hs.append(dict(bus='B', pat='P', name='hpB', prog=[('pause',)]))
             hs.append(dict(bus='B', pat='X', name='hxB', prog=[('ret', 0)]))
+        if shape == 'fwd' and walB and second:
+            # the chain goes one bus further (A -> B -> C, a log on each): the same event object is written three times, its path growing in between
+            names = ['A', 'B', 'C']
+            buses = dict(buses, C=dict(wal='/wal/c.jsonl'))
+            hs.append(dict(bus='C', pat='P', name='hpC', prog=[('pause',)]))
+            hs.append(dict(bus='C', pat='X', name='hxC', prog=[('ret', 0)]))
         main = [('disp', 'A', 'P', 'ff'), ('disp', 'A', 'X', 'ff')]
         hs.append(dict(bus='A', pat='Y', name='hy', prog=[('ret', 0)]))
         actors = [[('pause',), ('disp', 'A', 'Y', 'ff'), ('pause',), ('disp', names[-1], 'X2', 'ff')]]
         for order in ([names] if len(names) == 1 else [names, names[::-1]]):
             out.append(dict(prop='C17', family='c17.histories', id=f'c17/hist-{shape}-wb{int(walB)}-s{int(second)}-o{"".join(order)}', cfg=cfg, params=dict(kind='history', shape=shape),
-                            scn=dict(buses=buses, order=order, handlers=hs, main=main, actors=actors, forwards=[('A', 'B')] if shape == 'fwd' else [], settle=3.0)))
+                            scn=dict(buses=buses, order=order, handlers=hs, main=main, actors=actors, forwards=([('A', 'B'), ('B', 'C')] if 'C' in names else [('A', 'B')]) if shape == 'fwd' else [], settle=3.0)))
     # (c) fault sequences (free choices): every sequence over {ok, OSError} at mkdir/open/write
     fcfg = dict(bound=1 if not deep else 2, cap=20000, free=('fault',), window=0.25, max_targets=1, busy=deep)
     for shape in ['two', 'nested', 'fwd']:
@@ -289,6 +295,10 @@ def oracle(spec, res):
     ev_json = res['events_json']
     id_to_name = {j['event_id']: nm for nm, j in ev_json.items() if j}
     bad_events = {nm for nm, j in ev_json.items() if j is None}
+    wrote = {}
+    for r in res['log']:
+        if r[2] == 'wal' and r[3] == 'written':
+            wrote.setdefault((r[4], r[5]), []).append(r[0])
     for path, chunks in res['files'].items():
         bus = wal_of.get(path)
         text = ''.join(chunks)
@@ -314,6 +324,15 @@ def oracle(spec, res):
                     out.append(V('line_does_not_match_event', f'{path} {nm}: {k} {obj.get(k)!r} != {want.get(k)!r}', kind=kind))
             if obj.get('event_path') != want['event_path'][:len(obj.get('event_path', []))] or bus not in obj.get('event_path', []):
                 out.append(V('line_does_not_match_event', f'{path} {nm}: path {obj.get("event_path")} vs {want["event_path"]}', kind=kind))
+            # ... and it is the event AS THIS BUS PROCESSED IT: its path at the moment of the write = the buses that had accepted it by then, in order of arrival
+            wseq = wrote.get((path, nm), [None]).pop(0) if wrote.get((path, nm)) else None
+            if wseq is not None:
+                arrived = []
+                for d in tr.dispatches:
+                    if d[4] == nm and d[5] == 'ok' and d[0] < wseq and d[3] not in arrived:
+                        arrived.append(d[3])
+                if obj.get('event_path') != arrived:
+                    out.append(V('line_is_a_stale_snapshot_of_the_event', f'{path} {nm}: line has path {obj.get("event_path")}, the event had reached {arrived} when {bus} wrote it', kind=kind))
             if 'event_results' in obj:
                 out.append(V('results_leak_into_line', f'{path} {nm}', kind=kind))
             payload_keys = [k for k in want if not k.startswith('event_')]
